@@ -84,6 +84,7 @@ def sh_(cmd, timeout=120, env=None, cwd=None, limit_mem=False):
     if env:
         e.update(env)
     try:
+        timeout = timeout * C.load_factor()
         p = subprocess.run(cmd, stdout=subprocess.PIPE, stderr=subprocess.STDOUT, timeout=timeout, env=e, cwd=cwd,
                            preexec_fn=_limit_as if limit_mem else (_big_stack if 'c20_oracle' in os.path.basename(cmd[0]) else None))
         return p.returncode, p.stdout.decode('latin-1')
